@@ -239,10 +239,14 @@ theorem trail_segs_loose (ws : Char → Bool) {segs' segs : List SegX} (h : Segs
 
 /-! ### documents -/
 
-/-- contents equal up to white space in step text -/
+/-- contents equal up to white space in the text of the recipe body: steps with the same number and
+    the same items up to white space in their text runs; `>` paragraphs equal after collapsing runs
+    of white space and trimming, i.e. with the same words (the oracle's `norm_ws`).  (Wave 5: a
+    paragraph used to be compared by equality, which a trailing comment / trailing blanks / a block
+    comment on a `>` line falsifies — by blanks only, see `trail_paraIns_content`.) -/
 def LooseContent (ws : Char → Bool) : Content → Content → Prop
   | .step s', .step s => trailLoose ws s'.items = trailLoose ws s.items ∧ s'.number = s.number
-  | .text t', .text t => t' = t
+  | .text t', .text t => trailWords ws t' = trailWords ws t
   | _, _ => False
 
 theorem LooseContent.refl (ws : Char → Bool) (c : Content) : LooseContent ws c c := by
@@ -260,9 +264,64 @@ theorem LooseSection.isEmpty {ws : Char → Bool} {s' s : Section} (h : LooseSec
   unfold Section.isEmpty
   rw [h.1, LRel.isEmpty h.2]
 
-/-- a block of the document and the same block with an insertion in its step text -/
+/-- the lines of a `>` paragraph with filler tokens `F` inserted in the body of one line: what `F`
+    shows is white space that touches white space or the end of the paragraph text; the paragraph
+    shows something -/
+def ParaIns (ws : Char → Bool) (lines' lines : List PLine) : Prop :=
+  ∃ (L1 L2 : List PLine) (l : PLine) (b1 F b2 : List Tok), lines = L1 ++ l :: L2 ∧ l.body = b1 ++ b2 ∧
+    lines' = L1 ++ { l with body := b1 ++ F ++ b2 } :: L2 ∧ (∀ c ∈ F.flatMap vis, ws c = true) ∧
+    BlankAdj ws (L1.flatMap PLine.text ++ b1.flatMap vis) ((b2 ++ l.nl).flatMap vis ++ L2.flatMap PLine.text) ∧
+    lines.flatMap PLine.text ≠ []
+
+/-- **how an insertion changes a paragraph**: the text of the paragraph gains the white space `S`
+    the filler shows, at one place, next to white space or at the end — nothing else; so the two texts
+    have the same words -/
+theorem trail_paraIns_text (ws : Char → Bool) {lines' lines : List PLine} (h : ParaIns ws lines' lines) :
+    ∃ A S B, lines'.flatMap PLine.text = A ++ S ++ B ∧ lines.flatMap PLine.text = A ++ B ∧
+      (∀ c ∈ S, ws c = true) ∧ BlankAdj ws A B ∧
+      trailWords ws (lines'.flatMap PLine.text) = trailWords ws (lines.flatMap PLine.text) := by
+  obtain ⟨L1, L2, l, b1, F, b2, rfl, hb, rfl, hF, hadj, hne⟩ := h
+  refine ⟨L1.flatMap PLine.text ++ b1.flatMap vis, F.flatMap vis, (b2 ++ l.nl).flatMap vis ++ L2.flatMap PLine.text,
+    ?_, ?_, hF, hadj, ?_⟩
+  · simp [PLine.text, List.flatMap_append, List.append_assoc]
+  · simp [PLine.text, hb, List.flatMap_append, List.append_assoc]
+  · have e1 : (L1 ++ { l with body := b1 ++ F ++ b2 } :: L2).flatMap PLine.text =
+        [] ++ ((L1.flatMap PLine.text ++ b1.flatMap vis) ++ F.flatMap vis ++
+          ((b2 ++ l.nl).flatMap vis ++ L2.flatMap PLine.text)) := by
+      simp [PLine.text, List.flatMap_append, List.append_assoc]
+    have e2 : (L1 ++ l :: L2).flatMap PLine.text =
+        [] ++ ((L1.flatMap PLine.text ++ b1.flatMap vis) ++ ((b2 ++ l.nl).flatMap vis ++ L2.flatMap PLine.text)) := by
+      simp [PLine.text, hb, List.flatMap_append, List.append_assoc]
+    rw [e1, e2]
+    exact trail_words_ins ws _ _ _ hF hadj []
+
+theorem trail_paraIns_content (ws : Char → Bool) {lines' lines : List PLine} (h : ParaIns ws lines' lines) :
+    LRel (LooseContent ws) (absParaContent lines') (absParaContent lines) := by
+  obtain ⟨A, S, B, e', e, hS, hadj, hw⟩ := trail_paraIns_text ws h
+  have hne : lines.flatMap PLine.text ≠ [] := h.choose_spec.choose_spec.choose_spec.choose_spec.choose_spec.choose_spec.2.2.2.2.2
+  have hne' : lines'.flatMap PLine.text ≠ [] := by
+    rw [e']
+    rw [e] at hne
+    intro h0
+    simp only [List.append_eq_nil_iff] at h0
+    exact hne (by rw [h0.1.1, h0.2]; rfl)
+  unfold absParaContent
+  have i1 : (lines'.flatMap PLine.text).isEmpty = false := by
+    cases hx : lines'.flatMap PLine.text with
+    | nil => exact absurd hx hne'
+    | cons _ _ => rfl
+  have i2 : (lines.flatMap PLine.text).isEmpty = false := by
+    cases hx : lines.flatMap PLine.text with
+    | nil => exact absurd hx hne
+    | cons _ _ => rfl
+  rw [i1, i2]
+  exact .cons hw .nil
+
+/-- a block of the document and the same block with an insertion in its step text / in a line of
+    its paragraph -/
 def ItemIns (ws : Char → Bool) (d' d : DocItem) : Prop :=
-  d' = d ∨ ∃ segs' segs, d' = .step segs' ∧ d = .step segs ∧ SegsIns ws segs' segs
+  d' = d ∨ (∃ segs' segs, d' = .step segs' ∧ d = .step segs ∧ SegsIns ws segs' segs) ∨
+    (∃ lines' lines, d' = .para lines' ∧ d = .para lines ∧ ParaIns ws lines' lines)
 
 theorem trail_absDocSecs_loose (ws : Char → Bool) {items' items : List DocItem} (h : LRel (ItemIns ws) items' items) :
     ∀ (b' b : List SegX) (hb : trailComps b' = trailComps b) (cur' cur : Section) (hc : LooseSection ws cur' cur)
@@ -276,7 +335,7 @@ theorem trail_absDocSecs_loose (ws : Char → Bool) {items' items : List DocItem
     · exact .cons hc .nil
   | @cons d1 d2 _ _ hd _ ih =>
     intro b' b hb cur' cur hc num
-    rcases hd with heq | ⟨segs', segs, rfl, rfl, hs⟩
+    rcases hd with heq | ⟨segs', segs, rfl, rfl, hs⟩ | ⟨lines', lines, rfl, rfl, hp⟩
     · cases d2 with
       | step segs =>
         subst heq
@@ -307,15 +366,19 @@ theorem trail_absDocSecs_loose (ws : Char → Bool) {items' items : List DocItem
       apply ih _ _ (by rw [trail_comps_append, trail_comps_append, hb, h2])
       refine ⟨hc.1, LRel.append hc.2 (.cons ?_ .nil)⟩
       exact ⟨h1, rfl⟩
+    · simp only [absDocSecs]
+      apply ih _ _ hb
+      exact ⟨hc.1, LRel.append hc.2 (trail_paraIns_content ws hp)⟩
 
 theorem trail_absDocSegs_comps (ws : Char → Bool) {items' items : List DocItem} (h : LRel (ItemIns ws) items' items) :
     trailComps (absDocSegs items') = trailComps (absDocSegs items) := by
   induction h with
   | nil => rfl
   | @cons d1 d2 _ _ hd _ ih =>
-    rcases hd with heq | ⟨segs', segs, rfl, rfl, hs⟩
+    rcases hd with heq | ⟨segs', segs, rfl, rfl, hs⟩ | ⟨lines', lines, rfl, rfl, hp⟩
     · cases d2 <;> subst heq <;> simp only [absDocSegs, trail_comps_append, ih]
     · simp only [absDocSegs, trail_comps_append, ih, (trail_segs_loose ws hs [] [] rfl).2]
+    · simp only [absDocSegs, ih]
 
 theorem trail_absDocMeta (ws : Char → Bool) {items' items : List DocItem} (h : LRel (ItemIns ws) items' items) :
     ∀ m, absDocMeta m items' = absDocMeta m items := by
@@ -323,8 +386,9 @@ theorem trail_absDocMeta (ws : Char → Bool) {items' items : List DocItem} (h :
   | nil => intro m; rfl
   | @cons d1 d2 _ _ hd _ ih =>
     intro m
-    rcases hd with heq | ⟨segs', segs, rfl, rfl, hs⟩
+    rcases hd with heq | ⟨segs', segs, rfl, rfl, hs⟩ | ⟨lines', lines, rfl, rfl, hp⟩
     · cases d2 <;> subst heq <;> simp only [absDocMeta, ih]
+    · simp only [absDocMeta, ih]
     · simp only [absDocMeta, ih]
 
 theorem trail_isMeta (ws : Char → Bool) {items' items : List DocItem} (h : LRel (ItemIns ws) items' items) :
@@ -332,8 +396,9 @@ theorem trail_isMeta (ws : Char → Bool) {items' items : List DocItem} (h : LRe
   induction h with
   | nil => rfl
   | @cons d1 d2 _ _ hd _ ih =>
-    rcases hd with heq | ⟨segs', segs, rfl, rfl, hs⟩
+    rcases hd with heq | ⟨segs', segs, rfl, rfl, hs⟩ | ⟨lines', lines, rfl, rfl, hp⟩
     · cases d2 <;> subst heq <;> simp [List.filter_cons, DocItem.isMeta, ih]
+    · simp [List.filter_cons, DocItem.isMeta, ih]
     · simp [List.filter_cons, DocItem.isMeta, ih]
 
 /-- the well-formedness conditions of the C01 round trip on a printed document -/
